@@ -11,8 +11,9 @@ if [ "${1:-}" = "--done" ]; then git -C /repo worktree remove --force "$wt" 2>/d
 [ -d "$wt" ] || git -C /repo worktree add -q "$wt" HEAD || exit 2
 export CARGO_NET_OFFLINE=true
 FEAT="serde,uuid_entity,storage-event-control,derive"
-for d in "$@"; do
-  d=$(realpath "$d")
+dirs=()
+for d in "$@"; do dirs+=("$(realpath "$d")"); done
+for d in "${dirs[@]}"; do
   cd "$wt" || exit 2
   git checkout -q -- . ; rm -f tests/seed_demo.rs
   res() { python3 - "$d" "$@" <<'P'
